@@ -16,7 +16,15 @@ Signatures
         the changed object is a FrozenTrial that was unfinished when it was read without a
         deep copy, only its params/distributions/attrs/intermediate_values dicts changed,
         and the write went through the live optuna.trial.Trial of that very trial
-        (DESIGN.md F8: Trial._cached_frozen_trial aliases the storage's own object)
+        (DESIGN.md F8: Trial._cached_frozen_trial aliases the storage's own object).
+        "unfinished" = RUNNING, or WAITING for an enqueued trial that study.ask() then
+        claims: the claimed object still shares its dicts with the one read earlier.
+        Write kinds: trial.suggest/report/set_user_attr/set_system_attr, study.ask (with
+        fixed_distributions), study.optimize (the objective's suggest/report/set_user_attr).
+        Such a change is accepted and the history goes on, so that any *other* change in
+        the same history is still reported (and takes precedence).  Seen on the unchanged
+        tree on mem, jf-sym and jr (get_trial hands out the storage's own object); not on
+        rdb, cached and grpc(*), whose get_trial builds a fresh object.
   C20|<deployment>|snapshot-changed|<read kind>|<write kind>|<field>     any other change
   C20|<deployment>|copy-leak|<read kind>                                a mutated deep copy shows up in a later read
 """
@@ -48,7 +56,7 @@ DEPLOYMENTS = [
 ]
 
 EVIDENCE = {
-    "rule": "one case = one generated history (deployment, mode same-task or reader/writer threads, 1-6 setup writes, 8-22 reads/writes/leak probes) executed once; every object returned by a read is fingerprinted and re-fingerprinted after every later operation. Non-trivial = at least one fingerprinted object was followed by at least one later successful write and re-checked (threads mode: additionally at least one context switch); distinct = distinct digests of (deployment, operations, their results, scheduling decisions).",
+    "rule": "one case = one generated history (deployment, mode same-task or reader/writer threads, 1-6 setup writes, 8-22 reads/writes/leak probes; SQLite deployments 5-12) executed once; every object returned by a read is fingerprinted and re-fingerprinted after every later operation. Non-trivial = at least one fingerprinted object was followed by at least one later successful write and re-checked (threads mode: additionally at least one context switch); distinct = distinct digests of (deployment, operations, their results, scheduling decisions).",
     "assumptions": [
         "judged: FrozenTrial objects (single, or in lists) from Study and storage getters with and without deepcopy, Study.user_attrs/system_attrs, FrozenStudy objects of get_all_studies, Trial.params/user_attrs of a live Trial read by the task that owns the Trial; storage.get_study_user_attrs/get_study_system_attrs (live dicts on in-memory/journal) are not judged",
         "threads mode: reader and writer are two threads of one simulated process sharing the storage and Study object; all writes are issued by the writer; a live Trial object is used by one thread only",
